@@ -170,6 +170,22 @@ def storage_round_trip(value, position, through_db, via='direct'):
             version = Version(signature=sig)
             version.save()
             back = Version.objects.get(pk=version.pk).signature
+            # ... and the same Version written AGAIN after its signature was edited in place, the
+            # way ChangeField / RenameField edit signatures (attribute dictionaries updated, no
+            # object replaced): what is stored is the signature as it is now
+            try:
+                msig = sig.get_app_sig('vapp').get_model_sig('Ab')
+                msig.get_field_sig('alpha').field_attrs['max_length'] = 11
+                msig.get_field_sig('beta').field_attrs.update({'null': False, 'db_index': True})
+                version.save()
+                again = Version.objects.get(pk=version.pk).signature
+                obs['resave_eq'] = bool(again == sig)
+                obs['resave_same_text'] = (json.dumps(again.serialize(), sort_keys=True) ==
+                                           json.dumps(sig.serialize(), sort_keys=True))
+            finally:
+                msig.get_field_sig('alpha').field_attrs['max_length'] = 10
+                msig.get_field_sig('beta').field_attrs.pop('db_index', None)
+                msig.get_field_sig('beta').field_attrs['null'] = True
             version.delete()
         else:
             back = ProjectSignature.deserialize(
@@ -214,6 +230,22 @@ def pair_round_trip(first, second, position, via, through_db):
             version = Version(signature=sig)
             version.save()
             back = Version.objects.get(pk=version.pk).signature
+            # ... and the same Version written AGAIN after its signature was edited in place, the
+            # way ChangeField / RenameField edit signatures (attribute dictionaries updated, no
+            # object replaced): what is stored is the signature as it is now
+            try:
+                msig = sig.get_app_sig('vapp').get_model_sig('Ab')
+                msig.get_field_sig('alpha').field_attrs['max_length'] = 11
+                msig.get_field_sig('beta').field_attrs.update({'null': False, 'db_index': True})
+                version.save()
+                again = Version.objects.get(pk=version.pk).signature
+                obs['resave_eq'] = bool(again == sig)
+                obs['resave_same_text'] = (json.dumps(again.serialize(), sort_keys=True) ==
+                                           json.dumps(sig.serialize(), sort_keys=True))
+            finally:
+                msig.get_field_sig('alpha').field_attrs['max_length'] = 10
+                msig.get_field_sig('beta').field_attrs.pop('db_index', None)
+                msig.get_field_sig('beta').field_attrs['null'] = True
             version.delete()
         else:
             back = ProjectSignature.deserialize(json.loads(text1, object_pairs_hook=OrderedDict))
